@@ -652,7 +652,7 @@ impl Composite for BuiltInOp {
             Self::Sub(x, y) => vec![x, y],
             Self::Concat(x, y) => vec![x, y],
             Self::Negate(x) => vec![x],
-            Self::Property(x, _) => vec![x],
+            Self::Property(x, index) => vec![x, index],
         }
     }
 
@@ -666,7 +666,7 @@ impl Composite for BuiltInOp {
             Self::Sub(x, y) => Ok(Self::Sub(f(x)?, f(y)?)),
             Self::Concat(x, y) => Ok(Self::Concat(f(x)?, f(y)?)),
             Self::Negate(x) => Ok(Self::Negate(f(x)?)),
-            Self::Property(x, prop) => Ok(Self::Property(f(x)?, prop)),
+            Self::Property(x, prop) => Ok(Self::Property(f(x)?, f(prop)?)),
         }
     }
 
@@ -814,6 +814,8 @@ impl Apply for Param {
             Param::ExpectInput(name, query) => {
                 Ok(Param::ExpectInput(name, query.apply_args(args)?))
             }
+            // a value that is already set may still hold expressions
+            Param::Set(x) => Ok(Param::Set(x.apply_args(args)?)),
             x => Ok(x),
         }
     }
@@ -828,6 +830,7 @@ impl Apply for Param {
                     None => Ok(Self::ExpectInput(name, query)),
                 }
             }
+            Param::Set(x) => Ok(Param::Set(x.apply_inputs(args)?)),
             x => Ok(x),
         }
     }
@@ -843,6 +846,7 @@ impl Apply for Param {
             Param::ExpectInput(name, query) => {
                 Ok(Param::ExpectInput(name, query.apply_fees(fees)?))
             }
+            Param::Set(x) => Ok(Param::Set(x.apply_fees(fees)?)),
             x => Ok(x),
         }
     }
@@ -859,6 +863,7 @@ impl Apply for Param {
             Param::ExpectValue(name, ty) => BTreeMap::from([(name.clone(), ty.clone())]),
             // queries can have nested params
             Param::ExpectInput(_, x) => x.params(),
+            Param::Set(x) => x.params(),
             _ => BTreeMap::new(),
         }
     }
@@ -866,6 +871,7 @@ impl Apply for Param {
     fn queries(&self) -> BTreeMap<String, InputQuery> {
         match self {
             Param::ExpectInput(name, query) => BTreeMap::from([(name.clone(), query.clone())]),
+            Param::Set(x) => x.queries(),
             _ => BTreeMap::new(),
         }
     }
@@ -874,6 +880,7 @@ impl Apply for Param {
         match self {
             // queries can have nested expressions that need to be reduced
             Param::ExpectInput(name, query) => Ok(Param::ExpectInput(name, query.reduce()?)),
+            Param::Set(x) => Ok(Param::Set(x.reduce()?)),
             x => Ok(x),
         }
     }
